@@ -40,6 +40,7 @@ type propSpec struct {
 	Thorough    tierSpec
 	Race        bool
 	Tags        string
+	ExtraTags   []string // additional build-tag variants the whole check is repeated under
 	LevelText   string
 	LevelNote   string
 	Technique   string
@@ -325,6 +326,7 @@ func runCheck(spec *propSpec, tier string) int {
 	os.MkdirAll(work, 0o755)
 	defer os.RemoveAll(work)
 	os.RemoveAll(filepath.Join(root, "props", "testdata", "rapid")) // rapid replays these first; never wanted
+	variants := append([]string{spec.Tags}, spec.ExtraTags...)
 	bin := buildTestBinary(work, spec)
 	replayDir := filepath.Join(root, "replays")
 	os.MkdirAll(replayDir, 0o755)
@@ -372,20 +374,33 @@ func runCheck(spec *propSpec, tier string) int {
 		}
 	}
 
-	// 2. shards
+	// 2. shards (repeated per build-tag variant; shard indices continue across variants)
 	perShard := (ts.Checks + ts.Shards - 1) / ts.Shards
+	shardsPerVariant := ts.Shards
+	ts.Shards = shardsPerVariant * len(variants)
 	results := make([]shardResult, ts.Shards)
+	bins := make([]string, len(variants))
+	bins[0] = bin
+	for vi := 1; vi < len(variants); vi++ {
+		vs := *spec
+		vs.Tags = variants[vi]
+		vwork := filepath.Join(work, fmt.Sprintf("variant%d", vi))
+		os.MkdirAll(vwork, 0o755)
+		bins[vi] = buildTestBinary(vwork, &vs)
+	}
 	var wg sync.WaitGroup
 	for s := 0; s < ts.Shards; s++ {
 		wg.Add(1)
 		go func(s int) {
 			defer wg.Done()
+			bin := bins[s/shardsPerVariant]
 			prefix := filepath.Join(work, fmt.Sprintf("s%d", s))
-			rapidSeed := 1 + seed*1000 + s
+			rapidSeed := 1 + seed*1000 + s%shardsPerVariant
 			args := []string{"-test.run", "^TestProp$", "-test.timeout", fmt.Sprintf("%ds", ts.Timeout),
 				fmt.Sprintf("-rapid.checks=%d", perShard), fmt.Sprintf("-rapid.seed=%d", rapidSeed), "-rapid.nofailfile", "-rapid.shrinktime=20s"}
-			e := []string{"VERIF_PROP=" + spec.ID, "VERIF_TIER=" + tier, "VERIF_OUT=" + prefix, fmt.Sprintf("VERIF_SHARD=%d", s),
-				fmt.Sprintf("VERIF_SHARDS=%d", ts.Shards), fmt.Sprintf("VERIF_SEED=%d", seed), fmt.Sprintf("VERIF_CHECKS=%d", perShard)}
+			e := []string{"VERIF_PROP=" + spec.ID, "VERIF_TIER=" + tier, "VERIF_OUT=" + prefix, fmt.Sprintf("VERIF_SHARD=%d", s%shardsPerVariant),
+				fmt.Sprintf("VERIF_SHARDS=%d", shardsPerVariant), fmt.Sprintf("VERIF_SEED=%d", seed), fmt.Sprintf("VERIF_CHECKS=%d", perShard),
+				"VERIF_BUILD_TAGS=" + variants[s/shardsPerVariant]}
 			exit, out, to := runProcess(bin, args, e, time.Duration(ts.Timeout+90)*time.Second, spec.RlimitAS)
 			results[s] = shardResult{shard: s, exit: exit, output: out, timedOut: to}
 		}(s)
